@@ -4,266 +4,345 @@ Import ListNotations.
 Require Import Base.Wire Base.PyStr C08.Model C08.Frame C08.PassA C08.PassC C09.Model.
 Open Scope N_scope.
 
-(* ---- required SASL: inside the initial SASL exchange the only way forward is success ---- *)
-Definition quiet (o : outev) : Prop :=
-  match o with Reconnect _ _ => False | Die => False | GEnd _ _ => False | _ => True end.
+(* ---- required SASL: registration never completes without a successful authentication ----
+   An invariant of EVERY message sequence.  "Registration completed" = CAP END
+   was sent (the fsm is INIT_WAITING_MOTD) or the fsm is CONNECTED /
+   CONNECTED_SASL (where Owner.do376 joins the channels). *)
+Definition prereg : list N := [UNINIT; INIT_CAP; INIT_SASL; IN_MOTD; SHUTTING_DOWN].
 
-(* which tables leave INIT_SASL *)
-Definition leaves_init_sasl (tbl : list (N * N)) : bool :=
-  existsb (fun ft => N.eqb (fst ft) 0 || N.eqb (fst ft) INIT_SASL) tbl.
-Lemma tables_from_sasl :
-  leaves_init_sasl gen.T08.EV_on_start_motd = false /\ leaves_init_sasl gen.T08.EV_on_end_motd = false /\
-  leaves_init_sasl gen.T08.EV_on_cap_end = false /\ leaves_init_sasl gen.T08.EV_on_init_messages_sent = false /\
-  leaves_init_sasl gen.T08.EV_on_sasl_cap = false.
+(* the state invariant: while unauthenticated, a connection with sasl.required is still registering *)
+Definition InvR (c : cfg) (s : st) : Prop :=
+  c_required c = true -> authed s = false -> mem (fsm s) prereg = true.
+(* the output invariant: a CAP END (its ghost event) is only sent authenticated *)
+Definition OutR (c : cfg) (o : outev) : Prop :=
+  match o with GEnd _ _ a => c_required c = true -> a = true | _ => True end.
+
+(* from a registering state (or from any state) the table only leads to registering states *)
+Definition prereg_closed (tbl : list (N * N)) : bool :=
+  forallb (fun ft => (negb (N.eqb (fst ft) 0) && negb (mem (fst ft) prereg)) || mem (snd ft) prereg) tbl.
+(* all events but on_cap_end and on_end_motd, which the two guards protect *)
+Lemma tables_prereg_closed :
+  prereg_closed gen.T08.EV_on_init_messages_sent = true /\ prereg_closed gen.T08.EV_on_sasl_cap = true /\
+  prereg_closed gen.T08.EV_on_sasl_auth_finished = true /\ prereg_closed gen.T08.EV_on_start_motd = true /\
+  prereg_closed gen.T08.EV_on_shutdown = true.
 Proof. vm_compute. repeat split. Qed.
 
-Lemma fire_none tbl : leaves_init_sasl tbl = false -> fire tbl INIT_SASL = None.
+Lemma prereg_closed_fire tbl x t :
+  prereg_closed tbl = true -> fire tbl x = Some t -> mem x prereg = true -> mem t prereg = true.
 Proof.
-  unfold leaves_init_sasl. induction tbl as [|[f t] tbl IH]; cbn [existsb fire fst]; [reflexivity|].
-  intro H. apply orb_false_iff in H as [H1 H2]. rewrite H1. apply IH. exact H2.
+  intros Hc Hf Hx. destruct (fire_In _ _ _ Hf) as [f [Hin Hfx]].
+  unfold prereg_closed in Hc. rewrite forallb_forall in Hc. specialize (Hc _ Hin). cbn [fst snd] in Hc.
+  apply orb_true_iff in Hc as [Hc|Hc]; [|exact Hc].
+  apply andb_true_iff in Hc as [H0 Hl]. destruct Hfx as [E|E]; subst.
+  - discriminate.
+  - rewrite Hx in Hl. discriminate.
 Qed.
-
-Lemma expect_not_sasl :
-  mem INIT_SASL gen.T08.EXPECT_capUpkeep = false /\ mem INIT_SASL gen.T08.EXPECT_doCapLs = false.
-Proof. vm_compute. split; reflexivity. Qed.
-
-(* the outcome we are after: still in INIT_SASL and nothing decisive happened, or authenticated *)
-Definition stuck_or_authed (s : st) (r : R) : Prop :=
-  (fsm (rstate r) = INIT_SASL /\ authed (rstate r) = authed s /\ Forall quiet (routs r)) \/
-  authed (rstate r) = true \/
-  ~ Forall (fun o => match o with Reconnect _ _ => False | Die => False | _ => True end) (routs r).
-
-Definition not903_reset (m : inmsg) : bool :=
-  match m with INum code _ => negb (N.eqb code 903) | IReset => false | _ => true end.
-
-Definition is_reset (o : outev) : Prop := match o with Reconnect _ _ => True | Die => True | _ => False end.
 
 Section Required.
 Variable c : cfg.
-Hypothesis Hreq : c_required c = true.
-Variable a0 : bool.
+Notation ok := (okR (InvR c) (OutR c)).
+Notation okT := (okR (fun s => authed s = true) (OutR c)).
 
-Definition IS (s : st) : Prop := fsm s = INIT_SASL /\ authed s = a0.
-Definition okE (r : R) : Prop := (IS (rstate r) /\ Forall quiet (routs r)) \/ Exists is_reset (routs r).
-
-Lemma okE_ret s : IS s -> okE (ret s).
-Proof. intro H. left. split; [exact H|constructor]. Qed.
-Lemma okE_raise s e : IS s -> okE (raise s e).
-Proof. intro H. left. split; [exact H|constructor]. Qed.
-Lemma okE_emit s o : IS s -> quiet o -> okE (emit s o).
-Proof. intros H Ho. left. split; [exact H|constructor; [exact Ho|constructor]]. Qed.
-
-Lemma okE_andthen r k : okE r -> (forall s, IS s -> okE (k s)) -> okE (r >>> k).
-Proof.
-  intros [[Hi Ho]|He] Hk; destruct r as [[s o] [e|]]; cbn [andthen].
-  - left. split; assumption.
-  - cbn [rstate routs fst snd] in *. specialize (Hk s Hi). destruct (k s) as [[s' o'] e'].
-    destruct Hk as [[Hi' Ho']|He']; cbn [rstate routs fst snd] in *.
-    + left. split; [exact Hi'|apply Forall_app; split; assumption].
-    + right. apply Exists_app. right. exact He'.
-  - right. exact He.
-  - cbn [routs fst snd] in He. destruct (k s) as [[s' o'] e']. right. cbn [routs fst snd]. apply Exists_app. left. exact He.
-Qed.
-
-Lemma okE_fold {A} (f : st -> A -> R) (l : list A) (r : R) :
-  okE r -> (forall s a, IS s -> okE (f s a)) ->
-  okE (fold_left (fun (acc : R) a => acc >>> fun s => f s a) l r).
-Proof.
-  revert r. induction l as [|x l IH]; intros r Hr Hf; [exact Hr|].
-  cbn [fold_left]. apply IH; [|exact Hf]. apply okE_andthen; [exact Hr|]. intros s Hs. apply Hf. exact Hs.
-Qed.
-
-Ltac estep :=
+Ltac okstep :=
   match goal with
-  | |- okE (ret _) => apply okE_ret
-  | |- okE (raise _ _) => apply okE_raise
-  | |- okE (send _ _ _) => apply okE_emit; [|exact Logic.I]
-  | |- okE (_ >>> _) => apply okE_andthen; [|intros ? ?]
-  | |- okE (if ?b then _ else _) => destruct b eqn:?
-  | |- okE (match ?x with _ => _ end) => destruct x eqn:?
+  | |- okR _ _ (ret _) => apply ok_ret
+  | |- okR _ _ (raise _ _) => apply ok_raise
+  | |- okR _ _ (send _ _ _) => apply ok_emit; [|exact Logic.I]
+  | |- okR _ _ (_ >>> _) => apply ok_andthen; [|intros ? ?]
+  | |- okR _ _ (if ?b then _ else _) => destruct b eqn:?
+  | |- okR _ _ (match ?x with _ => _ end) => destruct x eqn:?
+  | |- okR _ _ (let '(_, _) := ?x in _) => destruct x eqn:?
   end.
 
-Lemma e_reconnect s srv w : okE (reconnect c s srv w).
+Lemma InvR_authed s : authed s = true -> InvR c s.
+Proof. intros Ha _ Hf. rewrite Ha in Hf. discriminate. Qed.
+Lemma InvR_same s s' : fsm s' = fsm s -> authed s' = authed s -> InvR c s -> InvR c s'.
+Proof. intros Hf Ha H Hr Hn. rewrite Hf. apply H; [exact Hr|rewrite <- Ha; exact Hn]. Qed.
+Lemma InvR_fresh z : InvR c (fresh c z).
+Proof. intros _ _. reflexivity. Qed.
+
+Lemma okT_ok r : okT r -> ok r.
+Proof. apply okR_mono; [intros s Hs; apply InvR_authed; exact Hs|auto]. Qed.
+
+Lemma r_transition tbl s : prereg_closed tbl = true -> InvR c s -> ok (transition tbl s).
 Proof.
-  right. unfold reconnect, emit. cbn [andthen]. destruct (reset c s) as [[s' o'] e'].
-  cbn [routs fst snd app]. constructor. exact Logic.I.
+  intros Hc H. unfold transition. destruct (fire tbl (fsm s)) as [t|] eqn:Ef; [|apply ok_raise; exact H].
+  apply ok_ret. intros Hr Ha. cbn [set_fsm fsm]. eapply prereg_closed_fire; [exact Hc|exact Ef|apply H; assumption].
+Qed.
+Lemma t_transition tbl s : authed s = true -> okT (transition tbl s).
+Proof. intro H. unfold transition. destruct (fire tbl (fsm s)); [apply ok_ret|apply ok_raise]; exact H. Qed.
+
+Lemma r_expect l s : InvR c s -> ok (expect l s).
+Proof. intro H. unfold expect. destruct (mem (fsm s) l); [apply ok_ret|apply ok_raise]; exact H. Qed.
+
+Lemma r_queue s : InvR c s -> ok (queue_connect c s).
+Proof.
+  intro H. unfold queue_connect. destruct tables_prereg_closed as [T1 _].
+  destruct (zombie s); [apply ok_emit; [exact H|exact Logic.I]|].
+  repeat (first [okstep | apply r_transition | assumption]).
+Qed.
+Lemma r_reset s : ok (reset c s).
+Proof. unfold reset. apply r_queue. apply InvR_fresh. Qed.
+Lemma r_reconnect s srv w : InvR c s -> ok (reconnect c s srv w).
+Proof. intro H. unfold reconnect. apply ok_andthen; [apply ok_emit; [exact H|exact Logic.I]|]. intros; apply r_reset. Qed.
+
+(* the guarded CAP END: refused (connection dropped) while required and unauthenticated;
+   otherwise the ghost event carries authed = true whenever sasl.required *)
+Lemma r_endCap s : InvR c s -> ok (endCap c s).
+Proof.
+  intro H. unfold endCap, required_unauth.
+  destruct (authed s) eqn:Ea; destruct (c_required c) eqn:Er; cbn [negb andb]; try (apply r_reconnect; exact H).
+  - (* authenticated *)
+    apply okT_ok. destruct (outstanding s); [|apply ok_ret; exact Ea].
+    apply ok_andthen; [apply t_transition; exact Ea|]. intros s1 H1.
+    apply ok_andthen; [apply ok_emit; [exact H1|intros _; exact H1]|]. intros s2 H2.
+    apply ok_emit; [exact H2|exact Logic.I].
+  - (* not required: InvR and OutR are trivial *)
+    apply (okR_mono (fun _ => True) (InvR c) (fun _ => True) (OutR c)).
+    + intros s0 _ Hr. rewrite Er in Hr. discriminate.
+    + intros o _. destruct o; try exact Logic.I. cbn. intro Hr. rewrite Er in Hr. discriminate.
+    + destruct (outstanding s); [|apply ok_ret; exact Logic.I].
+      unfold transition. destruct (fire gen.T08.EV_on_cap_end (fsm s)); [|rewrite andthen_raise; apply ok_raise; exact Logic.I].
+      rewrite andthen_ret. apply ok_andthen; [apply ok_emit; exact Logic.I|]. intros. apply ok_emit; exact Logic.I.
+  - apply (okR_mono (fun _ => True) (InvR c) (fun _ => True) (OutR c)).
+    + intros s0 _ Hr. rewrite Er in Hr. discriminate.
+    + intros o _. destruct o; try exact Logic.I. cbn. intro Hr. rewrite Er in Hr. discriminate.
+    + destruct (outstanding s); [|apply ok_ret; exact Logic.I].
+      unfold transition. destruct (fire gen.T08.EV_on_cap_end (fsm s)); [|rewrite andthen_raise; apply ok_raise; exact Logic.I].
+      rewrite andthen_ret. apply ok_andthen; [apply ok_emit; exact Logic.I|]. intros. apply ok_emit; exact Logic.I.
 Qed.
 
-(* transitions that cannot fire from INIT_SASL raise and leave the state alone *)
-Lemma e_transition_blocked tbl s : leaves_init_sasl tbl = false -> IS s -> okE (transition tbl s).
+Lemma InvR_with_sasl s nx cur : InvR c s -> InvR c (with_sasl s nx cur).
+Proof. apply InvR_same; reflexivity. Qed.
+Lemma InvR_set_dec s d : InvR c s -> InvR c (set_dec s d).
+Proof. apply InvR_same; reflexivity. Qed.
+Lemma InvR_set_caps s l rq ak nk : InvR c s -> InvR c (set_caps s l rq ak nk).
+Proof. apply InvR_same; reflexivity. Qed.
+
+Lemma r_tryNext s : InvR c s -> ok (tryNextSasl c s).
 Proof.
-  intros Hl [Hf Ha]. unfold transition. rewrite Hf, (fire_none _ Hl). apply okE_raise. split; assumption.
+  intro H. unfold tryNextSasl. destruct tables_prereg_closed as [_ [_ [T3 _]]].
+  okstep; [apply r_expect; exact H|].
+  okstep.
+  - okstep; [apply ok_ret; assumption|].
+    okstep; [apply r_transition; [exact T3|apply InvR_with_sasl; assumption]|].
+    okstep; [apply r_endCap; assumption|apply ok_ret; assumption].
+  - apply ok_emit; [apply InvR_with_sasl; assumption|exact Logic.I].
 Qed.
 
-Lemma e_expect_blocked l s : mem INIT_SASL l = false -> IS s -> okE (expect l s).
-Proof. intros Hl [Hf Ha]. unfold expect. rewrite Hf, Hl. apply okE_raise. split; assumption. Qed.
-
-Lemma transition_blocked_eq tbl s : leaves_init_sasl tbl = false -> IS s -> transition tbl s = raise s ValueError.
-Proof. intros Hl [Hf _]. unfold transition. rewrite Hf, (fire_none _ Hl). reflexivity. Qed.
-Lemma expect_blocked_eq l s : mem INIT_SASL l = false -> IS s -> expect l s = raise s ValueError.
-Proof. intros Hl [Hf _]. unfold expect. rewrite Hf, Hl. reflexivity. Qed.
-
-Lemma e_expect l s : IS s -> okE (expect l s).
-Proof. intro H. unfold expect. destruct (mem (fsm s) l); [apply okE_ret|apply okE_raise]; exact H. Qed.
-
-Lemma IS_with_sasl s nx cur : IS s -> IS (with_sasl s nx cur).
-Proof. intros [A B]. split; assumption. Qed.
-Lemma IS_set_dec s d : IS s -> IS (set_dec s d).
-Proof. intros [A B]. split; assumption. Qed.
-Lemma IS_set_caps s l rq ak nk : IS s -> IS (set_caps s l rq ak nk).
-Proof. intros [A B]. split; assumption. Qed.
-
-Lemma e_tryNext s : IS s -> okE (tryNextSasl c s).
+Lemma r_maybe s : InvR c s -> ok (maybeStartSasl c s).
 Proof.
-  intro H. unfold tryNextSasl. estep; [apply e_expect; exact H|].
-  destruct (snext s0) as [|m r].
-  - rewrite Hreq. apply okE_ret. assumption.
-  - apply okE_emit; [apply IS_with_sasl; assumption|exact Logic.I].
+  intro H. unfold maybeStartSasl. destruct tables_prereg_closed as [_ [T2 _]].
+  okstep; [|okstep; [apply r_endCap|apply ok_ret]; exact H].
+  okstep; [apply r_transition; assumption|].
+  okstep; [|apply ok_raise; assumption].
+  apply r_tryNext. destruct o; [apply InvR_with_sasl|]; assumption.
 Qed.
 
-Lemma e_onCapSts s p : IS s -> okE (onCapSts c s p).
+Lemma r_upkeep s : InvR c s -> ok (capUpkeep c s).
 Proof.
-  intro H. unfold onCapSts.
-  destruct (parseStsPolicy p (c_secure c)) as [port|]; [|apply okE_ret; exact H].
-  destruct (c_secure c); [apply okE_emit; [exact H|exact Logic.I]|].
-  unfold transition. destruct (fire gen.T08.EV_on_shutdown (fsm s)) as [t|]; [|rewrite andthen_raise; apply okE_raise; exact H].
-  rewrite andthen_ret. apply e_reconnect.
+  intro H. unfold capUpkeep. okstep; [apply r_expect; exact H|].
+  repeat (first [okstep | apply r_reconnect | apply r_maybe | apply r_endCap | assumption]).
 Qed.
 
-Lemma e_addcaps items : forall s, IS s -> okE (addCapabilities c items s).
+Lemma r_sts s policy : InvR c s -> ok (onCapSts c s policy).
 Proof.
-  induction items as [|i items IH]; intros s H; cbn [addCapabilities]; [apply okE_ret; exact H|].
-  apply okE_andthen; [|intros s1 H1; apply IH; exact H1].
-  destruct (split1 [61] (strip_eq_tilde (length i) i)) as [[cp value]|].
-  - estep; [destruct (seq_eqb cp s_sts); [apply e_onCapSts|apply okE_ret]; exact H|].
-    apply okE_ret. unfold set_ls. apply IS_set_caps. assumption.
-  - estep; [destruct (seq_eqb _ s_sts); [apply e_reconnect|apply okE_ret; exact H]|].
-    apply okE_ret. unfold set_ls. apply IS_set_caps. assumption.
+  intro H. unfold onCapSts. destruct tables_prereg_closed as [_ [_ [_ [_ T5]]]].
+  okstep; [|apply ok_ret; exact H].
+  okstep; [apply ok_emit; [exact H|exact Logic.I]|].
+  okstep; [apply r_transition; assumption|]. apply r_reconnect. assumption.
 Qed.
 
-Lemma e_request s caps : IS s -> okE (requestCaps s caps).
+Lemma r_addcaps items : forall s, InvR c s -> ok (addCapabilities c items s).
 Proof.
-  intro H. unfold requestCaps. apply okE_fold.
-  - apply okE_emit; [apply IS_set_caps; exact H|exact Logic.I].
-  - intros s1 line H1. apply okE_emit; [exact H1|exact Logic.I].
+  induction items as [|item items IH]; intros s H; cbn [addCapabilities]; [apply ok_ret; exact H|].
+  apply ok_andthen; [|intros s1 H1; apply IH; exact H1].
+  okstep.
+  - destruct p as [cp value]. okstep.
+    + okstep; [apply r_sts; exact H|apply ok_ret; exact H].
+    + apply ok_ret. unfold set_ls. apply InvR_set_caps. assumption.
+  - okstep.
+    + okstep; [apply r_reconnect; exact H|apply ok_ret; exact H].
+    + apply ok_ret. unfold set_ls. apply InvR_set_caps. assumption.
 Qed.
 
-Lemma e_send_chunks s chunks : IS s -> okE (send_chunks s chunks).
+Lemma r_request s caps : InvR c s -> ok (requestCaps s caps).
 Proof.
-  intro H. unfold send_chunks. apply okE_fold; [apply okE_ret; exact H|].
-  intros s1 ch H1. apply okE_emit; [exact H1|exact Logic.I].
+  intro H. unfold requestCaps. apply ok_fold.
+  - apply ok_emit; [apply InvR_set_caps; exact H|exact Logic.I].
+  - intros s1 line H1. apply ok_emit; [exact H1|exact Logic.I].
 Qed.
 
-(* every message but 903 and a driver reset: still in the exchange, or the connection was dropped *)
-Lemma step_stuck s m :
-  IS s -> not903_reset m = true -> okE (step c s m).
+Lemma r_ls s args : InvR c s -> ok (doCapLs c s args).
 Proof.
-  intros H Hm. destruct tables_from_sasl as [T1 [T2 [T3 [T4 T5]]]]. destruct expect_not_sasl as [X1 X2].
-  destruct m as [args|args b e|code args|args|args|]; cbn [step]; try discriminate.
-  - destruct (cap_sub args) as [sub|]; [|apply okE_ret; exact H].
-    destruct (seq_eqb sub [108;115]).
-    { unfold doCapLs. destruct args as [|x0 [|x1 [|x2 [|x3 [|x4 r]]]]]; try (apply okE_ret; exact H).
-      - estep; [apply e_addcaps; exact H|]. estep; [apply okE_ret; assumption|].
-        rewrite expect_blocked_eq by assumption. rewrite andthen_raise. apply okE_raise. assumption.
-      - estep; [apply okE_ret; exact H|apply e_addcaps; exact H]. }
-    destruct (seq_eqb sub [97;99;107]).
-    { unfold doCapAck. destruct args as [|x0 [|x1 [|x2 [|x3 r]]]]; try (apply okE_ret; exact H).
-      destruct (words x2); [apply okE_raise; exact H|]. unfold capUpkeep.
-      rewrite expect_blocked_eq; [|exact X1|apply IS_set_caps; exact H]. rewrite andthen_raise.
-      apply okE_raise. apply IS_set_caps. exact H. }
-    destruct (seq_eqb sub [110;97;107]).
-    { unfold doCapNak. destruct args as [|x0 [|x1 [|x2 [|x3 r]]]]; try (apply okE_ret; exact H).
-      destruct (words x2); [apply okE_raise; exact H|]. unfold capUpkeep.
-      rewrite expect_blocked_eq; [|exact X1|apply IS_set_caps; exact H]. rewrite andthen_raise.
-      apply okE_raise. apply IS_set_caps. exact H. }
-    destruct (seq_eqb sub [110;101;119]).
-    { unfold doCapNew. destruct args as [|x0 [|x1 [|x2 [|x3 r]]]]; try (apply okE_ret; exact H).
-      destruct (words x2); [apply okE_raise; exact H|].
-      estep; [apply e_addcaps; exact H|]. estep; [apply okE_ret; assumption|].
-      match goal with |- okE (match new_caps c ?x with _ => _ end) => destruct (new_caps c x) end;
-        [apply okE_ret|apply e_request]; assumption. }
-    destruct (seq_eqb sub [100;101;108]); [|apply okE_ret; exact H].
-    unfold doCapDel. destruct args as [|x0 [|x1 [|x2 [|x3 r]]]]; try (apply okE_ret; exact H).
-    destruct (words x2) as [|w ws]; [apply okE_raise; exact H|]. apply okE_ret.
-    generalize (w :: ws). intro l. revert s H. induction l as [|x l IHl]; intros s H; [exact H|].
-    cbn [fold_left]. apply IHl. destruct H as [A B]. split; assumption.
-  - unfold doAuthenticate. estep; [apply e_expect; exact H|].
-    destruct args as [|chunk rest]; [apply okE_raise; apply IS_set_dec; assumption|].
-    destruct (match dec s0 with Some d => d | None => ([], false) end) as [chunks ready].
-    repeat (first [ estep
-                  | apply e_send_chunks; apply IS_set_dec; assumption
-                  | apply okE_emit; [apply IS_set_dec; assumption|exact Logic.I]
-                  | apply IS_set_dec; assumption
-                  | assumption ]).
-  - cbn [not903_reset] in Hm. apply negb_true_iff in Hm. rewrite Hm.
-    destruct ((904 <=? code) && (code <=? 907)); [apply e_tryNext; exact H|].
-    destruct (N.eqb code 908); [unfold do908; destruct args as [|x [|y r]]; apply okE_raise; exact H|].
-    destruct (N.eqb code 375); [apply e_transition_blocked; assumption|].
-    destruct (N.eqb code 376 || N.eqb code 377 || N.eqb code 422).
-    { unfold do376. rewrite transition_blocked_eq by assumption. rewrite andthen_raise. apply okE_raise. exact H. }
-    destruct (N.eqb code 432 || N.eqb code 433 || N.eqb code 437); [|apply okE_ret; exact H].
-    unfold do43x. destruct (after s); [apply okE_ret; exact H|apply okE_emit; [exact H|exact Logic.I]].
-  - unfold doError. destruct args as [|t r]; [apply okE_raise; exact H|].
-    repeat (first [estep | apply e_reconnect | assumption]).
-  - unfold doPing. destruct args; [apply okE_raise; exact H|apply okE_emit; [exact H|exact Logic.I]].
+  intro H. unfold doCapLs.
+  destruct args as [|x0 [|x1 [|x2 [|x3 [|x4 r]]]]]; try (apply ok_ret; exact H).
+  - okstep; [apply r_addcaps; exact H|].
+    okstep; [apply ok_ret; assumption|].
+    okstep; [apply r_expect; assumption|].
+    destruct (new_caps c s1) as [|x nc]; [apply r_endCap; assumption|].
+    okstep; [apply r_request; assumption|].
+    okstep; [apply ok_ret|apply r_endCap]; assumption.
+  - okstep; [apply ok_ret; exact H|apply r_addcaps; exact H].
+Qed.
+
+Lemma r_ack s args : InvR c s -> ok (doCapAck c s args).
+Proof.
+  intro H. unfold doCapAck.
+  destruct args as [|x0 [|x1 [|x2 [|x3 r]]]]; try (apply ok_ret; exact H).
+  destruct (words x2); [apply ok_raise; exact H|]. apply r_upkeep. apply InvR_set_caps. exact H.
+Qed.
+Lemma r_nak s args : InvR c s -> ok (doCapNak c s args).
+Proof.
+  intro H. unfold doCapNak.
+  destruct args as [|x0 [|x1 [|x2 [|x3 r]]]]; try (apply ok_ret; exact H).
+  destruct (words x2); [apply ok_raise; exact H|]. apply r_upkeep. apply InvR_set_caps. exact H.
+Qed.
+Lemma r_del s args : InvR c s -> ok (doCapDel s args).
+Proof.
+  intro H. unfold doCapDel.
+  destruct args as [|x0 [|x1 [|x2 [|x3 r]]]]; try (apply ok_ret; exact H).
+  destruct (words x2) as [|w ws]; [apply ok_raise; exact H|]. apply ok_ret.
+  generalize (w :: ws). intro l. revert s H. induction l as [|x l IHl]; intros s H; [exact H|].
+  cbn [fold_left]. apply IHl. revert H. apply InvR_same; reflexivity.
+Qed.
+Lemma r_new s args : InvR c s -> ok (doCapNew c s args).
+Proof.
+  intro H. unfold doCapNew.
+  destruct args as [|x0 [|x1 [|x2 [|x3 r]]]]; try (apply ok_ret; exact H).
+  destruct (words x2) as [|w ws] eqn:Ew; [apply ok_raise; exact H|].
+  okstep; [apply r_addcaps; exact H|].
+  okstep; [apply ok_ret; assumption|].
+  destruct (new_caps c s0) as [|x nc]; [apply ok_ret; assumption|]. apply r_request. assumption.
+Qed.
+
+Lemma r_chunks s chunks : InvR c s -> ok (send_chunks s chunks).
+Proof.
+  intro H. unfold send_chunks. apply ok_fold; [apply ok_ret; exact H|].
+  intros s1 ch H1. apply ok_emit; [exact H1|exact Logic.I].
+Qed.
+
+Lemma r_auth s args b e : InvR c s -> ok (doAuthenticate c s args b e).
+Proof.
+  intro H. unfold doAuthenticate. okstep; [apply r_expect; exact H|].
+  destruct args as [|chunk rest]; [apply ok_raise; apply InvR_set_dec; assumption|].
+  destruct (match dec s0 with Some d => d | None => ([], false) end) as [chunks ready].
+  repeat (first [ okstep
+                | apply r_chunks; apply InvR_set_dec; assumption
+                | apply ok_emit; [apply InvR_set_dec; assumption|exact Logic.I]
+                | apply InvR_set_dec; assumption
+                | assumption ]).
+Qed.
+
+(* 903: authenticated from here on *)
+Lemma r_903 s : ok (do903 c s).
+Proof.
+  unfold do903. apply ok_andthen.
+  - apply okT_ok. apply t_transition. reflexivity.
+  - intros s1 H1. destruct (N.eqb (fsm s1) INIT_CAP); [apply r_endCap|apply ok_ret]; exact H1.
+Qed.
+
+(* end of MOTD: refused (connection dropped) while required and unauthenticated *)
+Lemma r_376 s : InvR c s -> ok (do376 c s).
+Proof.
+  intro H. unfold do376, required_unauth.
+  destruct (authed s) eqn:Ea; destruct (c_required c) eqn:Er; cbn [negb andb]; try (apply r_reconnect; exact H).
+  - apply okT_ok. apply ok_andthen; [apply t_transition; exact Ea|]. intros s1 H1.
+    destruct (c_umodes c); [apply ok_emit; [exact H1|exact Logic.I]|apply ok_ret; exact H1].
+  - apply (okR_mono (fun _ => True) (InvR c) (OutR c) (OutR c)); [|auto|].
+    + intros s0 _ Hr. rewrite Er in Hr. discriminate.
+    + apply ok_andthen; [unfold transition; destruct (fire _ _); [apply ok_ret|apply ok_raise]; exact Logic.I|].
+      intros. destruct (c_umodes c); [apply ok_emit|apply ok_ret]; exact Logic.I.
+  - apply (okR_mono (fun _ => True) (InvR c) (OutR c) (OutR c)); [|auto|].
+    + intros s0 _ Hr. rewrite Er in Hr. discriminate.
+    + apply ok_andthen; [unfold transition; destruct (fire _ _); [apply ok_ret|apply ok_raise]; exact Logic.I|].
+      intros. destruct (c_umodes c); [apply ok_emit|apply ok_ret]; exact Logic.I.
+Qed.
+
+Theorem r_step s m : InvR c s -> ok (step c s m).
+Proof.
+  intro H. destruct tables_prereg_closed as [_ [_ [_ [T4 _]]]].
+  destruct m as [args|args b64ok empty|code args|args|args|]; cbn [step].
+  - destruct (cap_sub args) as [sub|]; [|apply ok_ret; exact H].
+    repeat (first [okstep | apply r_ls | apply r_ack | apply r_nak | apply r_new | apply r_del | assumption]).
+  - apply r_auth. exact H.
+  - repeat (first [okstep | apply r_903 | apply r_tryNext | apply r_transition | apply r_376 | assumption]).
+    + unfold do908. destruct args as [|x [|y r]]; apply ok_raise; exact H.
+    + unfold do43x. destruct (after s); [apply ok_ret|apply ok_emit; [|exact Logic.I]]; exact H.
+  - unfold doError. destruct args as [|t r]; [apply ok_raise; exact H|].
+    repeat (first [okstep | apply r_reconnect | assumption]).
+  - unfold doPing. destruct args; [apply ok_raise|apply ok_emit; [|exact Logic.I]]; exact H.
+  - apply r_reset.
+Qed.
+
+Theorem r_run ms : forall s, InvR c s ->
+  InvR c (fst (run_msgs c s ms)) /\ Forall (OutR c) (snd (run_msgs c s ms)).
+Proof.
+  induction ms as [|m ms IH]; intros s H; [split; [exact H|constructor]|].
+  cbn [run_msgs]. destruct (r_step s m H) as [Hi Ho].
+  destruct (step c s m) as [[s1 o1] e1]. cbn [rstate routs fst snd] in Hi, Ho.
+  destruct (IH s1 Hi) as [Hi2 Ho2]. destruct (run_msgs c s1 ms) as [s2 o2]. cbn [fst snd] in *.
+  split; [exact Hi2|apply Forall_app; split; assumption].
 Qed.
 End Required.
 
+(* the state after any reset -- in particular the start of every connection -- satisfies the invariant *)
+Lemma InvR_reset c s : InvR c (rstate (reset c s)).
+Proof. exact (proj1 (r_reset c s)). Qed.
 
-(* With sasl.required set, a connection that entered the initial SASL exchange
-   stays there -- no CAP END, no end of registration -- whatever the server
-   sends short of a 903 (success), unless the connection is dropped. *)
-Theorem required_blocks c a0 ms : forall s,
-  c_required c = true -> IS a0 s -> forallb not903_reset ms = true ->
-  (IS a0 (fst (run_msgs c s ms)) /\ Forall quiet (snd (run_msgs c s ms)))
-  \/ Exists is_reset (snd (run_msgs c s ms)).
+(* the statement in plain terms, for every message sequence from the start of a connection *)
+Theorem required_never_registers c ms :
+  c_required c = true ->
+  let r := run_msgs c (start c) ms in
+  (authed (fst r) = false ->
+     fsm (fst r) <> CONNECTED /\ fsm (fst r) <> CONNECTED_SASL /\ fsm (fst r) <> WAIT_MOTD) /\
+  (forall n out a, In (GEnd n out a) (snd r) -> a = true).
 Proof.
-  induction ms as [|m ms IH]; intros s Hreq Hs Hd; [left; split; [exact Hs|constructor]|].
-  cbn [forallb] in Hd. apply andb_true_iff in Hd as [Hm Hd]. cbn [run_msgs].
-  pose proof (step_stuck c Hreq a0 s m Hs Hm) as Hst.
-  destruct (step c s m) as [[s1 o1] e1]. unfold okE in Hst. cbn [rstate routs fst snd] in Hst.
-  destruct Hst as [[Hs1 Hq1]|He1].
-  - specialize (IH s1 Hreq Hs1 Hd). destruct (run_msgs c s1 ms) as [s2 o2]. cbn [fst snd] in *.
-    destruct IH as [[Hs2 Hq2]|He2].
-    + left. split; [exact Hs2|apply Forall_app; split; assumption].
-    + right. apply Exists_app. right. exact He2.
-  - destruct (run_msgs c s1 ms) as [s2 o2]. right. cbn [snd]. apply Exists_app. left. exact He1.
+  intros Hr r. destruct (r_run c ms (start c) (InvR_reset c (fresh c false))) as [Hi Ho]. fold r in Hi, Ho. split.
+  - intro Ha. specialize (Hi Hr Ha).
+    repeat split; intro E; rewrite E in Hi; vm_compute in Hi; discriminate.
+  - intros n out a Hin. rewrite Forall_forall in Ho. exact (Ho _ Hin Hr).
 Qed.
 
 (* and the success path does authenticate *)
-Lemma do903_authenticates s : authed (rstate (do903 s)) = true.
+Lemma do903_authenticates c s : authed (rstate (do903 c s)) = true.
 Proof.
-  set (P := fun x : st => authed x = true). set (O := fun _ : outev => True).
-  assert (Ht : forall tbl x, P x -> okR P O (transition tbl x)).
-  { intros tbl x Hx. unfold transition. destruct (fire tbl (fsm x)); [apply ok_ret|apply ok_raise]; exact Hx. }
-  assert (He : forall x, P x -> okR P O (endCap x)).
-  { intros x Hx. unfold endCap. apply ok_andthen; [apply Ht; exact Hx|]. intros x1 Hx1.
-    apply ok_andthen; [apply ok_emit; [exact Hx1|exact Logic.I]|]. intros x2 Hx2.
-    apply ok_emit; [exact Hx2|exact Logic.I]. }
-  assert (H : okR P O (do903 s)).
-  { unfold do903. apply ok_andthen; [apply Ht; reflexivity|]. intros x Hx.
-    destruct (N.eqb (fsm x) INIT_CAP); [apply He; exact Hx|apply ok_ret; exact Hx]. }
-  exact (proj1 H).
+  unfold do903. unfold transition. cbn [fsm].
+  destruct (fire gen.T08.EV_on_sasl_auth_finished (fsm s)) as [t|]; [|reflexivity].
+  rewrite andthen_ret. cbn [set_fsm fsm].
+  destruct (N.eqb t INIT_CAP); [|reflexivity].
+  unfold endCap, required_unauth. cbn [authed negb andb].
+  match goal with |- context [outstanding ?x] => destruct (outstanding x) end; [|reflexivity].
+  unfold transition. cbn [fsm set_fsm]. destruct (fire gen.T08.EV_on_cap_end t); reflexivity.
 Qed.
 
-(* ---- the pinned code lets a server skip required SASL (finding F8) ---- *)
+(* ---- the old witnesses of finding C09.F8 (fixed) ---- *)
 Definition cfg_required : cfg :=
   Cfg (s_sasl :: [98;97;116;99;104] :: []) true [s_plain] [[65;65;65;65]] [] None false false true [104] 3.
+Definition is_drop (o : outev) : bool := match o with Reconnect None true => true | _ => false end.
+Definition is_cap_end (o : outev) : bool := match o with GEnd _ _ _ => true | _ => false end.
 
-(* (a) the server does not list sasl; (b) it NAKs sasl; (c) it skips CAP and sends the MOTD *)
-Example required_bypassed_no_sasl :
-  let ms := [cap [s_LS; [98;97;116;99;104]]; cap [[65;67;75]; [98;97;116;99;104]]; INum 376 []] in
+(* (a) the server does not list sasl; (b) it NAKs sasl; (c) it skips CAP and sends the MOTD:
+   no CAP END, never CONNECTED, the connection is dropped *)
+Example required_no_sasl_aborts :
+  let ms := [cap [s_LS; [98;97;116;99;104]]; cap [[65;67;75]; [98;97;116;99;104]]] in
   let '(s, outs) := run_msgs cfg_required (start cfg_required) ms in
-  fsm s = CONNECTED /\ authed s = false /\ existsb (fun o => match o with GEnd _ _ => true | _ => false end) outs = true.
+  existsb is_cap_end outs = false /\ existsb is_drop outs = true /\ fsm s = INIT_CAP /\ authed s = false.
 Proof. vm_compute. auto. Qed.
-Example required_bypassed_nak :
-  let ms := [cap [s_LS; s_sasl]; cap [[78;65;75]; s_sasl]; INum 376 []] in
+Example required_nak_aborts :
+  let ms := [cap [s_LS; s_sasl]; cap [[78;65;75]; s_sasl]] in
   let '(s, outs) := run_msgs cfg_required (start cfg_required) ms in
-  fsm s = CONNECTED /\ authed s = false /\ existsb (fun o => match o with GEnd _ _ => true | _ => false end) outs = true.
+  existsb is_cap_end outs = false /\ existsb is_drop outs = true /\ fsm s = INIT_CAP /\ authed s = false.
 Proof. vm_compute. auto. Qed.
-Example required_bypassed_no_cap :
-  let '(s, outs) := run_msgs cfg_required (start cfg_required) [INum 376 []] in
-  fsm s = CONNECTED /\ authed s = false.
+Example required_no_cap_aborts :
+  let '(s, outs) := run_msgs cfg_required (start cfg_required) [INum 375 []; INum 376 []] in
+  existsb is_cap_end outs = false /\ existsb is_drop outs = true /\ fsm s = INIT_CAP /\ authed s = false.
+Proof. vm_compute. auto. Qed.
+(* non-vacuity: with sasl.required a successful exchange does register *)
+Example required_success_registers :
+  let ms := [cap [s_LS; s_sasl]; cap [[65;67;75]; s_sasl]; IAuth [s_PLUS] true true; INum 903 []; INum 376 []] in
+  let '(s, outs) := run_msgs cfg_required (start cfg_required) ms in
+  filter is_cap_end outs = [GEnd 1 [] true] /\ fsm s = CONNECTED /\ authed s = true.
 Proof. vm_compute. auto. Qed.
 
 (* ---- STS ---- *)
@@ -301,24 +380,27 @@ Theorem sts_secure_stored c s policy port :
 Proof. intros Hs Hp. unfold onCapSts. rewrite Hs, Hp. reflexivity. Qed.
 
 (* ---- applying a stored policy ---- *)
-Theorem sts_applied_on_domain now n sv pol last port duration :
+(* while an unexpired stored policy exists the connection uses its port with
+   verification forced: unexpired = no disconnection was ever recorded (the
+   policy did not start to expire: fix of finding C09.F9) or now <= last + duration *)
+Definition unexpired (now : Z) (n : netstore) (host : str) (duration : Z) : Prop :=
+  match dict_get host (discs n) with Some last => (now <= last + duration)%Z | None => True end.
+
+Theorem sts_applied now n sv pol port duration :
   dict_get (sv_host sv) (policies n) = Some pol -> parseStsPolicy2 pol true = Some (port, duration) ->
-  dict_get (sv_host sv) (discs n) = Some last -> (now <= last + duration)%Z ->
+  unexpired now n (sv_host sv) duration ->
   applyStsPolicy now n sv = (n, Ok (Server (sv_host sv) port (sv_attempt sv) true)).
 Proof.
-  intros Hp Hparse Hl Hle. unfold applyStsPolicy. rewrite Hp, Hl, Hparse.
+  intros Hp Hparse Hu. unfold applyStsPolicy, unexpired in *. rewrite Hp, Hparse.
+  destruct (dict_get (sv_host sv) (discs n)) as [last|]; [|reflexivity].
   destruct (Z.ltb (last + duration) now) eqn:E; [apply Z.ltb_lt in E; lia|reflexivity].
 Qed.
 
-(* a stored, unexpired policy is ignored when no disconnect time was ever recorded (finding F9) *)
-Theorem sts_applied_refuted :
-  exists now n sv pol, dict_get (sv_host sv) (policies n) = Some pol /\
-    parseStsPolicy2 pol true = Some (6697%Z, 1000000%Z) /\
-    applyStsPolicy now n sv = (n, Ok sv) /\ sv_force sv = false /\ sv_port sv = 6667%Z.
-Proof.
-  exists 100%Z, (Net [([104], s_port ++ [61;54;54;57;55;44] ++ s_duration ++ [61;49;48;48;48;48;48;48])] []),
-         (Server [104] 6667 0 false). eexists. vm_compute. repeat split; reflexivity.
-Qed.
+(* the old witness of C09.F9: a stored policy, no disconnect time: now applied *)
+Example sts_applied_no_disconnect_record :
+  let n := Net [([104], s_port ++ [61;54;54;57;55;44] ++ s_duration ++ [61;49;48;48;48;48;48;48])] [] in
+  applyStsPolicy 100%Z n (Server [104] 6667 0 false) = (n, Ok (Server [104] 6697 0 true)).
+Proof. vm_compute. reflexivity. Qed.
 
 (* expiry: removed and not applied *)
 Theorem sts_expired now n sv pol last port duration :
